@@ -217,8 +217,9 @@ def c06 (c : Ctx) (r : Run) : Verdict :=
 def c16 (c : Ctx) (r : Run) : Verdict :=
   let (cmp, _) := CheckGen.compare c r
   let corr := CheckGen.corrFor cmp ["source", "boiler"]
-  match c.module, r.real with
-  | some _, .ok o =>
+  -- the property speaks about every Ok result, also of a source naga itself would not parse (the module is not needed)
+  match r.real with
+  | .ok o =>
     let spec : Status := if decide (C16Ok c.src c.path o) then .ok else
       match c.path, o.source with
       | some p, .includeStr p' => .fail s!"c16#include-path: expected {p} real {p'}"
@@ -232,7 +233,7 @@ def c16 (c : Ctx) (r : Run) : Verdict :=
     { corr := corr, spec := spec,
       tags := [if c.path.isSome then "include" else "embedded"] ++ (if nonAscii then ["non-ascii"] else []) ++
         (if esc then ["needs-escapes"] else []) ++ (if c.src.toList.any (fun ch => ch.toNat > 0xFFFF) then ["non-bmp"] else []) }
-  | _, _ => { corr := corr, spec := .skip "no-output" }
+  | _ => { corr := corr, spec := .skip "no-output" }
 
 end CheckSimple
 end WgslVerif
